@@ -463,7 +463,13 @@ func runTwoDie(k, n int, mode gen.ApplicationMode, nv int, how string) {
 		} else {
 			got := a.CBs()[len(a.CBs())-1].reason
 			if got != reason && !(got == gen.TerminateReasonNormal && nv == n && !(mode == gen.ApplicationModePermanent || (mode == gen.ApplicationModeTransient && isAbnormal(reason)))) {
-				d.r.v("two-die-together-terminate-reason", "Terminate(%v), expected %v: %s", got, reason, ctx)
+				sig := "two-die-together-terminate-reason"
+				if got == gen.TerminateReasonNormal {
+					// the terminator that triggers the stop records the reason only after it has switched
+					// the state; another terminator can complete the stop before that
+					sig = "terminate-reason-not-set-before-stop-completes"
+				}
+				d.r.v(sig, "Terminate(%v), expected %v: %s", got, reason, ctx)
 			}
 		}
 		if len(d.r.viols) == 0 {
